@@ -276,6 +276,21 @@ func genC14(seed uint64) *Scenario {
 		}
 	}
 	sc.Cfg = cfg
+	if !hugeTimeouts && r.chance(1, 8) {
+		// the process-wide default lowered to one of the deadlines of this run: a MatchTimeout equal to
+		// the default is an ordinary timeout
+		var ds []int64
+		for _, cl := range sc.Clients {
+			for _, o := range cl.Ops {
+				if o.TimeoutNs > 0 {
+					ds = append(ds, o.TimeoutNs)
+				}
+			}
+		}
+		if len(ds) > 0 {
+			sc.DefaultTimeoutNs = ds[r.n(len(ds))]
+		}
+	}
 	viaUnmarshal(r, sc, 1, 6)
 	nameOps(sc)
 	return sc
